@@ -1,8 +1,16 @@
 #!/bin/bash
-# Offline setup: pre-warm the Go build cache for the monitors. Builds only from files on disk.
+# Offline setup: pre-warm the Go build cache for the registered checks. Builds only from files on disk.
 set -u
 cd "$(dirname "${BASH_SOURCE[0]}")/lab" || exit 1
 export GOFLAGS=-mod=mod GOPROXY=off GOSUMDB=off GOTOOLCHAIN=local
 [ -f go.sum ] || cp /repo/go.sum go.sum
-go build -tags verif ./... || go build ./... || exit 1
+PKGS="./vc ./spec ./gen ./dslprint ./pipeline ./rt/... ./oracle ./cases ./valgen ./vtree ./cmd/lab"
+for m in cmd/mon-c*; do [ -f "$m/main.go" ] && PKGS="$PKGS ./$m"; done
+rc=0
+for p in $PKGS; do
+  go build -tags verif -o /dev/null $p 2>/dev/null || go build -o /dev/null $p 2>/dev/null || { echo "setup: cannot build $p (check will report it)"; }
+done
+# race-instrumented standard library and goa packages (C17 C19 C20 build with -race)
+go build -race -tags verif -o /dev/null ./cmd/mon-c17 ./cmd/mon-c19 2>/dev/null || true
 echo setup ok
+exit $rc
